@@ -558,7 +558,39 @@ func (e *Engine) explore(entries []EntryCfg, nworkers int, solverBin string, qti
 			}
 		}()
 	}
+	stopProg := make(chan bool)
+	if os.Getenv("VERIF_PROGRESS") != "" {
+		go func() {
+			tk := time.NewTicker(5 * time.Second)
+			defer tk.Stop()
+			for {
+				select {
+				case <-stopProg:
+					return
+				case <-tk.C:
+					mu.Lock()
+					msg := ""
+					for _, er := range results {
+						nu := 0
+						for _, c := range er.Unsupported {
+							nu += c
+						}
+						msg += fmt.Sprintf(" %s:p=%d,d=%d,u=%d,v=%d", er.Cfg.Func, er.Paths, er.Done, nu, len(er.Violations))
+					}
+					q := 0
+					for _, w := range workers {
+						if w != nil {
+							q += w.solver.Stats.Queries
+						}
+					}
+					fmt.Fprintf(os.Stderr, "progress: stack=%d active=%d queries=%d%s\n", len(stack), active, q, msg)
+					mu.Unlock()
+				}
+			}
+		}()
+	}
 	wg.Wait()
+	close(stopProg)
 	return results, workers, firstErr
 }
 
